@@ -31,7 +31,10 @@ O (direct oracle, Python, from the property text)
   O6  no method is dispatched while the implementation's `on_serve_start` (run for another connection's first
       `serve()`) has not finished: every schedule starts from a FRESH, unbound server, the hook's start-up work spans
       several scheduling points and the generated methods refuse to answer until it is done — so a connection answered
-      by a half-started service observes something it never observes alone.
+      by a half-started service observes something it never observes alone;
+  O7  a handler whose connection ended (transport closed) holds no `max_connections` permit any more — also when it left
+      `serve()` with a non-`Exception` BaseException (generated methods that raise SystemExit / KeyboardInterrupt / a custom
+      BaseException as the last call of a connection, with further connections queued behind or arriving after it).
 """
 
 import io
@@ -266,6 +269,13 @@ def state_cls() -> Any:
     return TagState
 
 
+class HandlerBoom(BaseException):
+    """A user-defined BaseException that is not an Exception."""
+
+
+EXITS: dict[str, type[BaseException]] = {"SystemExit": SystemExit, "KeyboardInterrupt": KeyboardInterrupt, "HandlerBoom": HandlerBoom}
+
+
 class Rt:
     """Run-time switches of a generated implementation (set by `Env`): the scheduler, whether the implementation has an
     `on_serve_start` hook (its one-shot start-up work takes a few scheduling points; until it has finished the service is
@@ -325,6 +335,11 @@ def build(desc: dict[str, Any], hook: bool = False, rt: "Rt | None" = None) -> t
                 for lg in _m.get("logs", []):
                     ctx.client_log(Level(lg["level"]), lg["text"], **dict(lg.get("extra", {}), c=str(a)))
                 out = _m["out"]
+                if "exit" in out:
+                    # the handler ends with a non-`Exception` BaseException: serve() does not catch it, `_handle` must
+                    # still close the transport and give its permit back
+                    rt.emit("handler-exit", a, out["exit"])
+                    raise EXITS[out["exit"]](f"handler of connection {a} exits")
                 if "raise" in out:
                     raise svcgen.make_exc(out["raise"])
                 return int(out["ok"]) + a
@@ -416,14 +431,19 @@ def _dstep(s: dict[str, Any], k: int, conn: int) -> dict[str, Any]:
     return {"logs": [_dlog(x, conn) for x in s.get("logs", [])], "act": act, "post": [_dlog(x, conn) for x in s.get("post", [])]}
 
 
-def model_prog(desc: dict[str, Any], script: list[list[Any]], conn: int) -> list[list[Any]]:
-    """The Lean program (`C41.Op` list) of one connection: the service's methods instantiated with the connection id."""
+def model_prog(desc: dict[str, Any], script: list[list[Any]], conn: int, solo_obs: list[list[Any]] | None = None) -> list[list[Any]]:
+    """The Lean program (`C41.Op` list) of one connection: the service's methods instantiated with the connection id.
+    A call whose handler exits with a BaseException (`crash`) is observed by the client as a transport failure whose
+    wording is the client library's: the model takes it from the connection's SOLO run (`solo_obs`)."""
     by = {m["name"]: m for m in desc["methods"]}
     out: list[list[Any]] = []
     i = 0
     while i < len(script):
         op = script[i]
-        if op[0] == "call":
+        if op[0] == "call" and "exit" in by[op[1]]["out"]:
+            seen = solo_obs[i] if solo_obs is not None and i < len(solo_obs) else []
+            out.append(["crash", {"obs": to_lean(seen)}])
+        elif op[0] == "call":
             m = by[op[1]]
             o = m["out"]
             out.append(["unary", {"logs": [_dlog(x, conn) for x in m["logs"]],
@@ -680,6 +700,8 @@ def analyse(cfg: dict[str, Any], run: Any) -> dict[str, Any]:
     gave_up: list[int] = []
     early: list[int] = []
     unpermitted: list[int] = []
+    exits: list[int] = []
+    ended: set[int] = set()
     for ev in run.trace:
         k, tid = ev[0], ev[1]
         if k == "accept":
@@ -721,6 +743,7 @@ def analyse(cfg: dict[str, Any], run: Any) -> dict[str, Any]:
             labels.append(["begin", ev[2]])
         elif k == "end":
             serving.discard(ev[2])
+            ended.add(ev[2])
             labels.append(["end", ev[2]])
         elif k == "op":
             evs = json.loads(ev[3])
@@ -734,6 +757,8 @@ def analyse(cfg: dict[str, Any], run: Any) -> dict[str, Any]:
                 gave_up.append(c)  # the handler's wait for a permit timed out
         elif k == "early-dispatch":
             early.append(ev[2])
+        elif k == "handler-exit":
+            exits.append(ev[2])
     modelable = True
     for lab in labels:
         if lab[0] == "op":
@@ -744,7 +769,8 @@ def analyse(cfg: dict[str, Any], run: Any) -> dict[str, Any]:
             lean_labels.append(lab)
     return {"labels": labels, "lean": lean_labels, "obs": obs, "max_serving": max_serving, "max_holding": max_holding,
             "overlap": overlap, "queued": queued, "anomalies": anomalies, "done": done, "gave_up": gave_up, "early": early,
-            "modelable": modelable,
+            "modelable": modelable, "exits": exits, "leaked": sorted(holding & ended), "expected_deaths": set(
+                t for t, c in handler.items() if c in exits),
             "unpermitted": unpermitted}
 
 
@@ -780,13 +806,19 @@ def judge(ctx: Any, cfg: dict[str, Any], run: Any, an: dict[str, Any], model: An
         f"max-serving{an['max_serving']}", "overlapping" if an["overlap"] else "serialised", f"src:{cfg.get('src', 'gen')}",
         "lines" if cfg.get("lines") else "ops-only", "hook" if cfg.get("hook") else "no-hook",
         f"idle:{cfg.get('idle')}", "slow-handlers" if cfg.get("slow") else "fast-handlers",
+        "handler-exits" if an["exits"] else "no-handler-exit",
         "queued-past-idle" if (cfg.get("idle") is not None and run.clock > cfg["idle"] and cap is not None and n > cap) else "no-long-queue"))
     # ---- O
+    if an["leaked"]:
+        ctx.fail(case, "C41:permit-not-released",
+                 f"the handler(s) of connection(s) {an['leaked']} closed their transport and ended still holding a "
+                 f"max_connections permit (handler exits: {an['exits']}; run status {run.status}, blocked {run.blocked})")
     if run.status != "ok":
         ctx.fail(case, f"C41:{run.status}", f"run ended with {run.status}: blocked {run.blocked}")
         return
-    if run.errors:
-        e = next(iter(run.errors.values()))
+    errs = {t: e for t, e in run.errors.items() if not (t in an["expected_deaths"] and type(e).__name__ in EXITS)}
+    if errs:
+        e = next(iter(errs.values()))
         ctx.fail(case, f"C41:thread-exception:{type(e).__name__}", f"exception escaped a thread: {e!r}")
         return
     if run.diverged:
@@ -846,10 +878,6 @@ def solo_runs(ctx: Any, env: Env, cfg: dict[str, Any]) -> list[list[list[Any]]] 
     """Each connection's script served ALONE by the real code (one connection, no limit, default schedule); K0 against
     the Lean per-operation model."""
     out: list[list[list[Any]]] = []
-    progs = [model_prog(cfg["service"], s, i) for i, s in enumerate(cfg["scripts"])]
-    models: list[Any] = [None] * len(progs)
-    if ctx.driver is not None:
-        models = ctx.driver.batch([("C41.solo", {"prog": p}) for p in progs])
     ds = make_sched(env)
     try:
         with ds:
@@ -858,13 +886,17 @@ def solo_runs(ctx: Any, env: Env, cfg: dict[str, Any]) -> list[list[list[Any]]] 
                 an = analyse(cfg, run)
                 case = {"cfg": cfg, "solo": i}
                 ctx.case(case, nontrivial=True, tags=("k:solo",))
-                if run.status != "ok" or run.errors or i not in an["done"]:
-                    ctx.fail(case, f"C41:solo-{run.status}", f"connection {i} alone: status {run.status}, errors {run.errors}, blocked {run.blocked}")
+                errs = {t: e for t, e in run.errors.items() if not (t in an["expected_deaths"] and type(e).__name__ in EXITS)}
+                if run.status != "ok" or errs or i not in an["done"]:
+                    ctx.fail(case, f"C41:solo-{run.status}", f"connection {i} alone: status {run.status}, errors {errs}, blocked {run.blocked}")
                     return None
                 got = an["obs"].get(i, [])
                 out.append(got)
-                if models[i] is not None:
-                    m = model_obs_to_py(models[i])
+                model = None
+                if ctx.driver is not None and an["modelable"]:
+                    model = ctx.driver.call("C41.solo", {"prog": model_prog(cfg["service"], script, i, got)})
+                if model is not None:
+                    m = model_obs_to_py(model)
                     if m != got:
                         k = next((j for j in range(min(len(m), len(got))) if m[j] != got[j]), min(len(m), len(got)))
                         ctx.mismatch(dict(case, op=k), m[k] if k < len(m) else None, got[k] if k < len(got) else None,
@@ -879,7 +911,7 @@ def explore_cfg(ctx: Any, cfg: dict[str, Any], dfs: int, bound: int, rnd: int) -
     solo = solo_runs(ctx, env, cfg)
     if solo is None:
         return 0
-    progs = [model_prog(cfg["service"], s, i) for i, s in enumerate(cfg["scripts"])]
+    progs = [model_prog(cfg["service"], s, i, solo[i]) for i, s in enumerate(cfg["scripts"])]
     ds = make_sched(env, bool(cfg.get("lines")))
     setup = make_setup(env, cfg["scripts"], cfg["cap"])
     batch: list[tuple[Any, dict[str, Any]]] = []
@@ -958,6 +990,19 @@ CORPUS += [
 ]
 
 
+# a handler that leaves serve() with a BaseException must still give its permit back: later / queued connections are served
+SVC_B = {"methods": SVC_A["methods"] + [
+    {"name": "e5", "kind": "unary", "logs": [_L], "out": {"exit": "SystemExit"}},
+    {"name": "e6", "kind": "unary", "logs": [], "out": {"exit": "KeyboardInterrupt"}},
+    {"name": "e7", "kind": "unary", "logs": [], "out": {"exit": "HandlerBoom"}},
+]}
+CORPUS += [
+    {"service": SVC_B, "scripts": [[["call", "u0"], ["call", "e5"]], _U, _P1], "cap": 1, "hook": True},
+    {"service": SVC_B, "scripts": [[["call", "e6"]], [["call", "e7"]], _X2], "cap": 2, "transport": "tcp"},
+    {"service": SVC_B, "scripts": [_P1 + [["call", "e7"]], [["call", "u0"]]], "cap": None},
+]
+
+
 def gen_cfg(rng: Any, conns: int) -> dict[str, Any]:
     from harness import c01
 
@@ -968,6 +1013,11 @@ def gen_cfg(rng: Any, conns: int) -> dict[str, Any]:
     scripts = [gen_script(rng, desc) for _ in range(conns)]
     if rng.random() < 0.4:  # the same script on two connections: identical traffic, only the stamps differ
         scripts[-1] = [list(op) for op in scripts[0]]
+    if rng.random() < 0.35:
+        # some connections end with a call whose handler exits with a non-Exception BaseException
+        desc["methods"].append({"name": "ex", "kind": "unary", "logs": [], "out": {"exit": rng.choice(sorted(EXITS))}})
+        for sc in scripts[: rng.choice([1, 1, 2])]:
+            sc.append(["call", "ex"])
     cfg: dict[str, Any] = {"service": desc, "scripts": scripts, "cap": rng.choice([None, 1, 1, 2, 2]),
                            "transport": rng.choice(["unix", "tcp"]), "src": "gen", "hook": rng.random() < 0.7}
     if rng.random() < 0.5:
@@ -1041,7 +1091,7 @@ def replay(ctx: Any, case: dict[str, Any]) -> None:
         an = analyse(cfg, run_)
         model = None
         if ctx.driver is not None and an["modelable"]:
-            progs = [model_prog(cfg["service"], s, i) for i, s in enumerate(cfg["scripts"])]
+            progs = [model_prog(cfg["service"], s, i, solo[i]) for i, s in enumerate(cfg["scripts"])]
             model = ctx.driver.call("C41.accepts", {"cap": cfg["cap"], "progs": progs, "events": an["lean"]})
         judge(ctx, cfg, run_, an, model, solo)
     finally:
